@@ -201,6 +201,15 @@ func examineFiles(
 				continue
 			}
 
+			// snapshots of tests that called snaps.Skip* are not obsolete. A multi-entry
+			// file is examined like a used one, so only its other snapshots can be obsolete.
+			if skipped, standalone := hasSkippedTests(snapPath, content.Name()); skipped {
+				if !standalone {
+					used = append(used, snapPath)
+				}
+				continue
+			}
+
 			obsolete = append(obsolete, snapPath)
 
 			if !shouldUpdate {
